@@ -32,8 +32,10 @@ func ruleFrmInvoke(c *Ctx, r *R) {
 			if fd != nil {
 				name = c.fnName(fd)
 			}
-			r.check(name == "callReady" || name == "newMethod", "invoke in "+name, c.Pos(call), "the only sanctioned invocation sites",
-				"funcT.Value is invoked directly in "+name+": the call bypasses callReady's argument-count check and result trimming")
+			_, readyFn := c.callProtocol()
+			okSite := name == "newMethod" || (readyFn != nil && fd == readyFn)
+			r.check(okSite, "invoke in "+name, c.Pos(call), "the only sanctioned invocation sites",
+				"funcT.Value is invoked directly in "+name+": the call bypasses the argument-count check and result trimming of the call protocol")
 			return true
 		})
 	}
@@ -46,7 +48,12 @@ func ruleFrmInvoke(c *Ctx, r *R) {
 		r.undecided("exec", "-", err.Error())
 		return
 	}
-	want := map[string]string{"codeCall": "call", "codeFastCall": "call", "codeFastCallAttr": "call", "codeCallVariadic": "callReady"}
+	packFn, readyFn := c.callProtocol()
+	if packFn == nil || readyFn == nil {
+		r.undecided("protocol", "-", "the packing and the ready function of the call protocol were not found")
+		return
+	}
+	want := map[string]string{"codeCall": packFn.Name.Name, "codeFastCall": packFn.Name.Name, "codeFastCallAttr": packFn.Name.Name, "codeCallVariadic": readyFn.Name.Name}
 	for _, op := range sortedKeys(want) {
 		sc := m.sw.ByLabel[op]
 		if sc == nil {
@@ -99,13 +106,13 @@ func effIndex(st *State, pred func(Effect) bool) int {
 }
 
 func ruleFrmChecks(c *Ctx, r *R) {
-	fd := c.Func("callReady")
+	_, fd := c.callProtocol()
 	if fd == nil {
-		r.undecided("callReady", "-", "not found")
+		r.undecided("callReady", "-", "the function that invokes funcT.Value was not found")
 		return
 	}
 	m := newLenMachine(c, "v")
-	paths := m.in.ExecFunc(fd, nil)
+	paths := m.in.ExecFunc(fd, canonParams(fd, "v", "ft", "xArgs", "xRets"))
 	pos := c.Pos(fd)
 	isInvoke := func(e Effect) bool { return e.Kind == "call" && e.Value != nil && strings.HasPrefix(e.Value.Name, "fieldcall.Value") }
 	var argPanic, invoked int
@@ -148,13 +155,14 @@ func ruleFrmChecks(c *Ctx, r *R) {
 // ---- FRM-VARIADIC ----
 
 func ruleFrmVariadic(c *Ctx, r *R) {
-	fd := c.Func("call")
-	if fd == nil {
-		r.undecided("call", "-", "not found")
+	fd, readyDecl := c.callProtocol()
+	if fd == nil || readyDecl == nil {
+		r.undecided("call", "-", "the variadic-packing function of the call protocol was not found")
 		return
 	}
+	readyName := readyDecl.Name.Name
 	m := newLenMachine(c, "v")
-	paths := m.in.ExecFunc(fd, nil)
+	paths := m.in.ExecFunc(fd, canonParams(fd, "v", "ft", "xArgs", "xRets"))
 	pos := c.Pos(fd)
 	var direct, packed *State
 	for _, p := range paths {
@@ -167,7 +175,7 @@ func ruleFrmVariadic(c *Ctx, r *R) {
 	}
 	ready := func(p *State) *T {
 		for _, e := range p.Eff {
-			if e.Kind == "call" && e.Value != nil && e.Value.Name == "callReady" {
+			if e.Kind == "call" && e.Value != nil && e.Value.Name == readyName {
 				return e.Value
 			}
 		}
@@ -190,7 +198,7 @@ func ruleFrmVariadic(c *Ctx, r *R) {
 	// stack: shrinks by nVarArgs and grows by one (the packed slice): stack length when callReady is called
 	lenAt := ""
 	for _, e := range packed.Eff {
-		if e.Kind == "call" && e.Value != nil && e.Value.Name == "callReady" {
+		if e.Kind == "call" && e.Value != nil && e.Value.Name == readyName {
 			break
 		}
 		if e.Kind == "stack" && strings.HasPrefix(e.Value.Name, "len=") {
@@ -423,4 +431,19 @@ func ruleFrmMethod(c *Ctx, r *R) {
 	if n == 0 {
 		r.undecided("newMethod", pos, "no path analysed")
 	}
+}
+
+// canonParams binds a function's parameters, in order, to variables with the given canonical names.
+func canonParams(fd *ast.FuncDecl, names ...string) map[string]*T {
+	out := map[string]*T{}
+	i := 0
+	for _, f := range fd.Type.Params.List {
+		for _, n := range f.Names {
+			if i < len(names) {
+				out[n.Name] = tVar(nil, names[i])
+			}
+			i++
+		}
+	}
+	return out
 }
